@@ -121,7 +121,7 @@ func padLastLine(c *Ctx, w *world.World, n int) {
 func runC09(c *Ctx) []Violation {
 	w := pickWorld(c, worldOpts{CorpusWeight: 1, GenWeight: 3, Encodings: true})
 	switch w.Format {
-	case "csv", "csv2", "fixed-length", "fixedlength2":
+	case "csv", "csv2", "fixed-length", "fixedlength2", "jsonlog":
 		if c.T.Chance("c09.last-line-fills-buffer", 1, 6) {
 			padLastLine(c, w, 4096*(1+c.T.Intn("c09.last-line-fills-buffer.k", 2)))
 		}
